@@ -1,13 +1,17 @@
 #!/bin/bash
 # Developer tool: apply every seeded change in turn to /repo, run the quick check of the
 # property it was written against, record whether it raises a VIOLATION, restore /repo.
-# Writes seeded/RESULTS.md. /repo must be clean.
-cd /verif
-if [ -n "$(git -C /repo status --porcelain --untracked-files=no)" ]; then echo "/repo is not clean"; exit 2; fi
+# Writes seeded/RESULTS.md. The repository (GDSL_REPO, default /repo) must be clean; run it from a
+# snapshot copy of /verif and a clone of /repo to keep the live trees free.
+V="$(cd "$(dirname "${BASH_SOURCE[0]}")/.." && pwd)"
+R="${GDSL_REPO:-/repo}"
+export GDSL_REPO="$R"
+cd "$V"
+if [ -n "$(git -C $R status --porcelain --untracked-files=no)" ]; then echo "$R is not clean"; exit 2; fi
 OUT=seeded/RESULTS.md
 echo "# Seeded changes vs. the quick check of their target property" > $OUT
 echo "" >> $OUT
-echo "(written by tools/selftest_seeded.sh on $(date -u +%Y-%m-%dT%H:%MZ), harness commit $(git rev-parse --short HEAD), repo commit $(git -C /repo rev-parse --short HEAD))" >> $OUT
+echo "(written by tools/selftest_seeded.sh on $(date -u +%Y-%m-%dT%H:%MZ), harness commit $(git rev-parse --short HEAD), repo commit $(git -C $R rev-parse --short HEAD))" >> $OUT
 echo "" >> $OUT
 echo "| seeded change | target | exit | violations | first class |" >> $OUT
 echo "|---|---|---|---|---|" >> $OUT
@@ -15,14 +19,14 @@ miss=0
 for d in seeded/C*/; do
     name=$(basename $d)
     prop=${name%%-*}
-    git -C /repo apply /verif/$d/patch.diff || { echo "| $name | $prop | patch does not apply | | |" >> $OUT; miss=$((miss+1)); continue; }
+    git -C $R apply $V/$d/patch.diff || { echo "| $name | $prop | patch does not apply | | |" >> $OUT; miss=$((miss+1)); continue; }
     out=$(./check $prop --tier quick 2>&1); rc=$?
     nv=$(echo "$out" | grep -c "^VIOLATION")
     first=$(echo "$out" | grep "class=" | head -1 | sed 's/^ *//')
     echo "| $name | $prop | $rc | $nv | $first |" >> $OUT
     echo "$name $prop exit=$rc violations=$nv"
     [ $rc -eq 1 ] || miss=$((miss+1))
-    git -C /repo checkout -- .
+    git -C $R checkout -- .
 done
 echo "" >> $OUT
 echo "not detected by the target check: $miss" >> $OUT
